@@ -39,7 +39,7 @@ REAL_VS_STUB = {"real": ["sdeint, check_contract, BaseSDESolver.integrate, all s
 PROBES = ("ts_dtype_differs", "logqp_runs", "logqp_increments_compared", "chunks_total", "chunks_ge_4", "crash_fired_f", "crash_fired_g", "crash_fired_bm", "crash_not_reached",
           "extra_state_carried", "negative_control_differs", "negative_control_same", "intermediate_outputs",
           "real_bm", "stub_bm", "f32", "final_step_clipped", "durable_pickle", "fresh_sde_per_attempt", "via_sdeint_adjoint",
-          "restart_at_every_grid_point", "chunk_ts_as_list")
+          "restart_at_every_grid_point", "chunk_ts_as_list", "sde_form_plain", "sde_form_fused", "sde_form_renamed")
 STATE_MEASURE = "distinct (solver, noise type, steps, cut pattern, crash pattern) tuples"
 
 
@@ -156,7 +156,7 @@ def run_case(case, keep_log=False):
                     dtkw = {} if case.get("omit_dt") else {"dt": dt}
                     fn = torchsde.sdeint_adjoint if case.get("entry") == "sdeint_adjoint" else torchsde.sdeint
                     out = fn(sde, y, ts, bm=rec, method=solver["method"], extra=True,
-                             extra_solver_state=extra_state, logqp=logqp, **dtkw, **kw)
+                             extra_solver_state=extra_state, logqp=logqp, names=stubs.names_of(sde), **dtkw, **kw)
                     if logqp:
                         ys_, lr_, ex_ = out
                         lrs[tag] = (ts, lr_)
@@ -168,7 +168,7 @@ def run_case(case, keep_log=False):
                 raise Violation(f"exception:{type(e).__name__}@{bm._where(e)}", {"where": tag, "msg": str(e)[:200]}, tag)
 
         # --- pass 1: discover the grid with ts = [t0, T]
-        sde = stubs.make_sde(spec, case["dtype"])
+        sde = stubs.make_sde(spec, case["dtype"], allow_renamed=True)
         rec = stubs.make_recorder(inner)
         ys_a, extra_a = call(sde, rec, tsv, y0, None, "probe")
         trace_a = [(r[0], r[1]) for r in stubs.steps_of(rec.trace)]
@@ -187,7 +187,7 @@ def run_case(case, keep_log=False):
         probes["intermediate_outputs"] = len(outs)
         # --- one-shot reference with the intermediate outputs and the restart points as output times
         cuts = sorted(set(min(c, n) for c in case["cuts"] if 0 < min(c, n) < n))
-        sde = stubs.make_sde(spec, case["dtype"])
+        sde = stubs.make_sde(spec, case["dtype"], allow_renamed=True)
         rec = stubs.make_recorder(inner)
         ts_ref = torch.tensor(sorted(set([t0] + outs + [grid[c] for c in cuts] + [T])), dtype=tts)
         ys_ref, extra_ref = call(sde, rec, ts_ref, y0, None, "oneshot")
@@ -204,9 +204,10 @@ def run_case(case, keep_log=False):
         chunks = list(zip(bounds[:-1], bounds[1:]))
         probes["chunks_total"] = len(chunks)
         probes["chunks_ge_4"] = int(len(chunks) >= 4)
-        sde = stubs.make_sde(spec, case["dtype"])
+        sde = stubs.make_sde(spec, case["dtype"], allow_renamed=True)
         y = y0
         extra_state = None
+        probes["sde_form_" + spec.get("form", "plain")] = 1
         probes["durable_pickle"] = int(case.get("durable") == "pickle")
         probes["fresh_sde_per_attempt"] = int(bool(case.get("fresh_sde")))
         probes["via_sdeint_adjoint"] = int(case.get("entry") == "sdeint_adjoint")
@@ -223,7 +224,7 @@ def run_case(case, keep_log=False):
             while True:
                 rec = stubs.make_recorder(inner)
                 if case.get("fresh_sde"):
-                    sde = stubs.make_sde(spec, case["dtype"])  # nothing parked on the user's object survives
+                    sde = stubs.make_sde(spec, case["dtype"], allow_renamed=True)  # nothing parked on the user's object survives
                 crash = pending.pop(0) if pending else None
                 if crash is not None:
                     if crash["peer"] == "f":
@@ -296,7 +297,7 @@ def run_case(case, keep_log=False):
             raise Violation("chunked_trace_differs", {"first_diff": k, "len": [len(surviving), len(trace_ref)]}, "final")
         # negative control (reported, never alarmed): reversible Heun restarted WITHOUT its extra state should differ
         if solver["method"] == "reversible_heun" and len(chunks) >= 2:
-            sde2 = stubs.make_sde(spec, case["dtype"])
+            sde2 = stubs.make_sde(spec, case["dtype"], allow_renamed=True)
             y2 = y0
             for (a, b) in chunks:
                 ys2, _ = call(sde2, stubs.make_recorder(inner), torch.tensor([grid[a], grid[b]], dtype=tts), y2, None, "neg")
@@ -344,7 +345,7 @@ def simplify(case):
             c[key] = val
             yield c
     sp = case["sde"]
-    for key, val in (("batch", 1), ("kind", "linear")):
+    for key, val in (("batch", 1), ("kind", "linear"), ("form", "plain")):
         if sp[key] != val:
             c = copy.deepcopy(case)
             c["sde"][key] = val
